@@ -498,41 +498,53 @@ func c02Dispatch(p *Prog, r *Report) {
 		}
 		// every Latest call lies on beforeSeq == nil paths, every LastBefore on != nil paths
 		f := p.FlatOf(fi)
+		// the conditions are evaluated with "no point given" / "a point given" (locals with one definition, such as
+		// bounded := bound != nil, are evaluated through it); a condition that does not depend on it keeps both edges
 		prune := func(nilCase bool) *Flat {
+			env := &Env{P: p, Pkg: fi.Pkg, Vars: map[types.Object]*Val{}, Body: fi.Decl.Body}
+			if bsObj != nil {
+				if nilCase {
+					env.Vars[bsObj] = &Val{Nil: true}
+				} else {
+					env.Vars[bsObj] = &Val{Ptr: intVal(5)}
+				}
+			}
+			if setFlag != nil {
+				for _, o := range paramObjs(fi) {
+					if o == nil {
+						continue
+					}
+					t := o.Type()
+					_, isPtr := t.(*types.Pointer)
+					if isPtr {
+						t = t.(*types.Pointer).Elem()
+					}
+					if st, ok := t.Underlying().(*types.Struct); ok {
+						for i := 0; i < st.NumFields(); i++ {
+							if st.Field(i) == setFlag {
+								v := &Val{Fields: map[string]*Val{setFlag.Name(): boolVal(!nilCase)}}
+								if isPtr {
+									v = &Val{Ptr: v}
+								}
+								env.Vars[o] = v
+							}
+						}
+					}
+				}
+			}
 			return f.WithoutEdges(func(from *GNode, e Edge) bool {
 				if !from.IsCond {
 					return false
 				}
-				isNilLabel := 1
-				if setFlag != nil {
-					// if l.set { ... }: the true edge is "a point is given"
-					ce := ast.Unparen(from.Ast.(ast.Expr))
-					neg := false
-					if u, ok := ce.(*ast.UnaryExpr); ok && u.Op == token.NOT {
-						ce, neg = ast.Unparen(u.X), true
-					}
-					sel, ok := ce.(*ast.SelectorExpr)
-					if !ok || info.Uses[sel.Sel] != setFlag {
-						return false
-					}
-					isNilLabel = 2
-					if neg {
-						isNilLabel = 1
-					}
-				} else {
-					ex := isNilCompare(info, from.Ast.(ast.Expr))
-					if ex == nil || objOf(info, ex) != bsObj {
-						return false
-					}
-					be := ast.Unparen(from.Ast.(ast.Expr)).(*ast.BinaryExpr)
-					if be.Op.String() == "!=" {
-						isNilLabel = 2
-					}
+				v, err := env.Eval(from.Ast.(ast.Expr))
+				if err != nil || v == nil || v.C == nil || v.C.Kind() != constant.Bool {
+					return false
 				}
-				if nilCase {
-					return e.Label != isNilLabel
+				taken := 2
+				if constant.BoolVal(v.C) {
+					taken = 1
 				}
-				return e.Label == isNilLabel
+				return e.Label != taken
 			})
 		}
 		gNil, gSet := prune(true), prune(false)
@@ -650,7 +662,18 @@ func c02NewerOf(p *Prog, r *Report) {
 			}
 		}
 		merges := f.CallNodes(kFileLatestM)
+		if !(ok && len(merges) > 0) {
+			// the same decided by evaluation: the two reads answer (own, committed) with chosen sequence numbers, the
+			// result must be the newer one, ErrNotFound iff both are absent (the choice may sit in a helper)
+			if sem, detail, decided := c02GetTail(p, fi); decided {
+				r.Check(sem, "C02.c", kCoreGet+"#not-found", p.pos(fi.Decl), "newer-of(own, committed), ErrNotFound iff its Seq is zero (evaluated)", "core.Get does not answer with the newer of own and committed version, or does not report ErrNotFound exactly when there is none: "+detail)
+				ok = true
+				merges = []int{0}
+				goto tailDone
+			}
+		}
 		r.Check(ok && len(merges) > 0, "C02.c", kCoreGet+"#not-found", p.pos(fi.Decl), "newer-of(own, committed), ErrNotFound iff its Seq is zero", "core.Get does not combine own and committed version with Latest, or does not report ErrNotFound exactly for a zero sequence")
+	tailDone:
 	}
 	if fi := p.Func(kMergeFiles); fi != nil {
 		f := p.FlatOf(fi)
@@ -1142,4 +1165,93 @@ func constValOfKeyVal(v string) (*Val, bool) {
 		return nil, false
 	}
 	return intVal(n), true
+}
+
+// c02GetTail evaluates core.Get for a filter that names a store and a snapshot point: the k-th read of a per-store
+// reader answers a version with a chosen sequence number; the function must return the newer one, and ErrNotFound
+// exactly when both are absent (sequence zero).
+func c02GetTail(p *Prog, fi *FuncInfo) (good bool, detail string, decided bool) {
+	readers := snapshotReaders(p)
+	if len(readers) == 0 {
+		return false, "", false
+	}
+	info := fi.Pkg.TypesInfo
+	var filterObj, txIdObj types.Object
+	for _, fld := range fi.Decl.Type.Params.List {
+		for _, nm := range fld.Names {
+			o := info.Defs[nm]
+			if o == nil {
+				continue
+			}
+			if strings.HasSuffix(o.Type().String(), "model.FileFilter") {
+				filterObj = o
+			}
+			if bt, ok := o.Type().(*types.Basic); ok && bt.Kind() == types.String && txIdObj == nil {
+				txIdObj = o
+			}
+		}
+	}
+	if filterObj == nil {
+		return false, "", false
+	}
+	good = true
+	for _, sc := range [][2]int64{{0, 0}, {3, 0}, {0, 5}, {3, 5}, {5, 3}} {
+		f := p.FlatInlExcept(fi, readers...)
+		fv := &Val{Fields: map[string]*Val{"TxId": {Ptr: strVal("filter-id")}, "BeforeSeq": {Ptr: intVal(9)}}}
+		env := &Env{P: p, Pkg: fi.Pkg, Vars: map[types.Object]*Val{filterObj: fv}}
+		if txIdObj != nil {
+			env.Vars[txIdObj] = strVal("own-id")
+		}
+		env.Multi = func(env *Env, c *ast.CallExpr) ([]*Val, bool) {
+			if env.Pkg == fi.Pkg && p.callIs(fi.Pkg, c, "(*internal/model/core.Transactions).Get") && len(c.Args) == 1 {
+				return []*Val{{Tag: "store"}, boolVal(true)}, true
+			}
+			return nil, false
+		}
+		k := 0
+		env.Hook = func(env *Env, e ast.Expr) (*Val, bool) {
+			if env.Pkg != fi.Pkg {
+				return nil, false
+			}
+			if c, ok := e.(*ast.CallExpr); ok && p.callIs(fi.Pkg, c, readers...) {
+				seq := int64(0)
+				if k < 2 {
+					seq = sc[k]
+				}
+				k++
+				return &Val{Tag: fmt.Sprintf("read%d", k), Complete: true, Fields: map[string]*Val{"Seq": intVal(seq), "Key": strVal("k")}}, true
+			}
+			return nil, false
+		}
+		_, exit, err := f.WalkPath(env)
+		if err != nil || k != 2 {
+			return false, "", false
+		}
+		rs := f.returnStmt(exit)
+		if rs == nil || len(rs.Results) != 2 {
+			return false, "", false
+		}
+		notFound := strings.Contains(valueKey(info, rs.Results[1]), "fs_db.ErrNotFound")
+		isNil := isNilIdent(info, rs.Results[1])
+		wantNF := sc[0] == 0 && sc[1] == 0
+		switch {
+		case wantNF && !notFound:
+			good, detail = false, "own and committed version absent: no ErrNotFound"
+		case !wantNF && !isNil:
+			good, detail = false, fmt.Sprintf("own sequence %d, committed sequence %d: an error is returned", sc[0], sc[1])
+		case !wantNF:
+			v, verr := env.Eval(rs.Results[0])
+			if verr != nil || v == nil || v.Fields == nil || v.Fields["Seq"] == nil || v.Fields["Seq"].C == nil {
+				return false, "", false
+			}
+			want := sc[0]
+			if sc[1] > want {
+				want = sc[1]
+			}
+			if v.Fields["Seq"].C.ExactString() != fmt.Sprint(want) {
+				good, detail = false, fmt.Sprintf("own sequence %d, committed sequence %d: the version with sequence %s is returned", sc[0], sc[1], v.Fields["Seq"].C.ExactString())
+			}
+		}
+	}
+	return good, detail, true
 }
